@@ -385,7 +385,7 @@ OpModpow(args, max, flags) ==
                         zm == ZFromAtom(it[3].a)
                     IN  IF ze[1] THEN Err("InvalidOpArg")
                         ELSE IF ZIsZero(zm) THEN Err("DivisionByZero")
-                        ELSE IF e > ModpowCap \/ m > ModpowCap \/ b > QuadCap
+                        ELSE IF e > 375 \/ m > 54 \/ b > QuadCap       \* (keeps the products below 2^31)
                                 \/ e * 8 * m * m > ModpowCap \/ b * m > QuadCap THEN Abstain("modpow operands above cap")
                         ELSE LET res == ZToAtom(ZModPow(ZFromAtom(it[1].a), ze, zm))
                              IN  Ok(NAdd(cost, MallocCost(Len(res))), A(res), AtomAl(res))
